@@ -55,6 +55,19 @@ type PermCase struct {
 	// ViaCopy (only without error settings, which Spec.Copy does not
 	// carry): the specification is a Copy of the built one, compiled
 	ViaCopy bool `json:"viaCopy,omitempty"`
+	// Ended (native code only, which does not look at it): the step runs
+	// under a context that has already ended - a caller that gave up
+	// does not make a permanent binding any less permanent
+	Ended bool `json:"ended,omitempty"`
+}
+
+func (c PermCase) context() context.Context {
+	if !c.Ended {
+		return context.Background()
+	}
+	ctx, cancel := context.WithCancel(context.Background())
+	cancel()
+	return ctx
 }
 
 func (c PermCase) compiled(a *sm.ASpec) (*core.Spec, error) {
@@ -155,6 +168,7 @@ func genPerm(t *rapid.T) PermCase {
 	c.Parallel = len(c.Warm) > 0 && rapid.Bool().Draw(t, "parallel")
 	c.Declared = rapid.SampledFrom([]int{0, 0, 0, 1, 2, 3}).Draw(t, "declared")
 	c.ViaCopy = !c.ErrBranches && c.ErrNode == "" && rapid.IntRange(0, 3).Draw(t, "viaCopy") == 0
+	c.Ended = (c.Action == nil || c.Native) && (c.Guard == nil || c.GuardNative) && rapid.IntRange(0, 4).Draw(t, "ended") == 2
 	c.InPlace = (c.Native || c.GuardNative) && rapid.Bool().Draw(t, "inplace")
 	c.Direct = c.Guard == nil && rapid.IntRange(0, 3).Draw(t, "direct") == 0
 	return c
@@ -326,7 +340,7 @@ func checkPermOn(c PermCase, a *sm.ASpec, spec *core.Spec) (v ev.Verdict) {
 		}
 		var exe *core.Execution
 		var xerr error
-		if p := trap(func() { exe, xerr = act.Exec(context.Background(), given, nil) }); p != "" {
+		if p := trap(func() { exe, xerr = act.Exec(c.context(), given, nil) }); p != "" {
 			v.Failf("Action.Exec panicked with %d permanent binding(s): %s", nperm, p)
 			return
 		}
@@ -361,7 +375,7 @@ func checkPermOn(c PermCase, a *sm.ASpec, spec *core.Spec) (v ev.Verdict) {
 	}
 	var stride *core.Stride
 	var serr error
-	if p := trap(func() { stride, serr = spec.Step(context.Background(), st, nil, nil, nil) }); p != "" {
+	if p := trap(func() { stride, serr = spec.Step(c.context(), st, nil, nil, nil) }); p != "" {
 		v.Failf("Spec.Step panicked with %d permanent binding(s) (action %s, guard %s): %s", nperm, ev.JS(c.Action), ev.JS(c.Guard), p)
 		return
 	}
